@@ -14,4 +14,5 @@ CONSTANTS
   BugAccessorMutates = FALSE
   BugJsonAlias = TRUE
   BugEntryPointWritesTables = FALSE
+  BugCopyDiffers = FALSE
 CHECK_DEADLOCK FALSE
